@@ -245,6 +245,9 @@ type lscen struct {
 	loggers  [][]call
 	cycles   int  // cycle thread: number of VerifCycle calls, 11 s apart
 	dayJump  bool // a clock thread carries virtual time across midnight
+	// startAt, when set, replaces the default start of virtual time (2024-03-10 12:00 UTC): a start a few
+	// seconds before midnight makes the cycle thread's own 11 s steps cross the date line by seconds
+	startAt time.Time
 }
 
 func (s lscen) String() string {
@@ -256,7 +259,7 @@ func (s lscen) String() string {
 		}
 		ts = append(ts, strings.Join(cs, ","))
 	}
-	return fmt.Sprintf("%s level=%d interval=%ds rotation=%v cycles=%d dayJump=%v loggers: %s", s.name, s.level, s.interval, s.rotation, s.cycles, s.dayJump, strings.Join(ts, " || "))
+	return fmt.Sprintf("%s level=%d interval=%ds rotation=%v cycles=%d dayJump=%v start=%s loggers: %s", s.name, s.level, s.interval, s.rotation, s.cycles, s.dayJump, s.startAt.Format("15:04:05"), strings.Join(ts, " || "))
 }
 
 var levelNo = map[string]int{"debug": logger.LOG_LEVEL_DEBUG, "info": logger.LOG_LEVEL_INFO, "warn": logger.LOG_LEVEL_WARN, "error": logger.LOG_LEVEL_ERROR, "println": 99}
@@ -273,6 +276,10 @@ type issued struct {
 
 func (s lscen) scenario() dfs.Scenario {
 	return func(x *sched.Exec) func() string {
+		vtime.Epoch = vtime.DefaultEpoch
+		if !s.startAt.IsZero() {
+			vtime.Epoch = s.startAt
+		}
 		mem := vos.NewMemFS()
 		vos.Use(mem)
 		vrt.Filter = func(string) bool { return false } // the 10 s background loop is replaced by the cycle thread
@@ -332,6 +339,7 @@ func (s lscen) scenario() dfs.Scenario {
 		return func() string {
 			vos.Use(nil)
 			vrt.Filter = nil
+			vtime.Epoch = vtime.DefaultEpoch
 			if x.HitStepCap {
 				return "livelock: step cap hit"
 			}
@@ -470,6 +478,7 @@ func lscens(thorough bool) []lscen {
 		lscen{name: "day-change", level: logger.LOG_LEVEL_WARN, rotation: true, cycles: 1, dayJump: true, loggers: [][]call{{w("WA101"), w("WA102")}, {w("WA201")}}},
 		lscen{name: "day-change-2-cycles", level: logger.LOG_LEVEL_WARN, rotation: true, cycles: 2, dayJump: true, loggers: [][]call{{w("WA101"), w("WA102"), w("WA103")}}},
 		lscen{name: "no-rotation-day-change", level: logger.LOG_LEVEL_WARN, rotation: false, cycles: 1, dayJump: true, loggers: [][]call{{w("WA101"), w("WA102")}}},
+		lscen{name: "midnight-crossed-by-seconds", level: logger.LOG_LEVEL_WARN, rotation: true, cycles: 2, startAt: time.Date(2024, 3, 10, 23, 59, 50, 0, time.UTC), loggers: [][]call{{w("WA101"), w("WA102")}, {w("WA201")}}},
 		lscen{name: "interval-same-id", level: logger.LOG_LEVEL_WARN, interval: 10, rotation: true, loggers: [][]call{{{"println", "WA300"}, {"println", "WA300"}, {"println", "WA300"}, {"println", "WA300"}}}},
 		lscen{name: "interval-two-threads", level: logger.LOG_LEVEL_WARN, interval: 10, rotation: true, loggers: [][]call{{{"println", "WA300"}, {"println", "WA301"}}, {{"println", "WA300"}, {"println", "WA300"}}}},
 	)
